@@ -138,8 +138,11 @@ func Step(c *Chain, rec *Recorder, op Ev) (applied bool) {
 		}
 		return true
 	case "Restart":
-		if !c.Prepared || c.Phase != "deliver" {
+		if c.Phase != "deliver" {
 			return false
+		}
+		if !c.Prepared { // (a behaviour of the specification restarts in one step)
+			Step(c, rec, Ev{Name: "PrepZeroHeight"})
 		}
 		out := c.Restart()
 		ev := Ev{Name: "Restart", OK: out.OK, Panic: out.Panic, Err: out.Err}
